@@ -283,12 +283,75 @@ def run_text_orders(ctx):
     return n
 
 
+def run_near_duplicates(ctx):
+    """items that differ only in a detail that is easy to lose - the clauses inside a filter, the definition of a same-named
+    variable of a block - written next to each other in every order: (a) rules whose `when` guards and bodies differ only inside
+    `[ .. ]`, with file-level function variables over the same queries; (b) lines of one rule that are type blocks / query
+    blocks on the same type or query, each with its own `let` of the same name. Statuses must not depend on the order."""
+    import itertools
+    T = ['AWS::SQS::Queue', 'AWS::SNS::Topic', 'AWS::S3::Bucket']
+    rule = lambda nm, ty, prop: ('rule %s when Resources.*[ Type == \'%s\' ] !empty {\n  Resources.*[ Type == \'%s\' ].Properties.%s exists\n}\n' % (nm, ty, ty, prop))
+    rules_a = [rule('queues', T[0], 'Delay'), rule('topics', T[1], 'Name'), rule('buckets', T[2], 'Size')]
+    lets_a = ['let nq = count(Resources.*[ Type == \'%s\' ])\n' % T[0], 'let nt = count(Resources.*[ Type == \'%s\' ])\n' % T[1]]
+    counts = 'rule counts {\n  %nq == 1\n  %nt == 2\n}\n'
+    docs_a = [{'Resources': {'q': {'Type': T[0], 'Properties': {'Delay': 1}}, 't1': {'Type': T[1], 'Properties': {}}, 't2': {'Type': T[1], 'Properties': {'Name': 'n'}}}},
+              {'Resources': {'b': {'Type': T[2], 'Properties': {'Size': 1}}, 'q': {'Type': T[0], 'Properties': {}}}},
+              {'Resources': {'t': {'Type': T[1], 'Properties': {'Name': 'n'}}}}]
+    scen = []        # (label, [texts that must agree], docs)
+    texts = []
+    for lp in itertools.permutations(lets_a):
+        for rp in itertools.permutations(rules_a + [counts]):
+            texts.append(''.join(lp) + ''.join(rp))
+    if ctx.tier != 'thorough':
+        texts = texts[::3] + texts[1:8]
+    scen.append(('rules and file-level variables that differ only inside a filter', texts, docs_a))
+    lines_b = ['AWS::IAM::Role {\n    let want = "admin"\n    Properties.RoleName == %want\n  }',
+               'AWS::IAM::Role {\n    let want = "/"\n    Properties.Path == %want\n  }',
+               'AWS::S3::Bucket {\n    let want = 5\n    Properties.Size == %want\n  }',
+               'Resources.* {\n    let want = Type\n    %want exists\n  }']
+    docs_b = [{'Resources': {'r': {'Type': 'AWS::IAM::Role', 'Properties': {'RoleName': 'admin', 'Path': '/'}}, 'b': {'Type': 'AWS::S3::Bucket', 'Properties': {'Size': 5}}}},
+              {'Resources': {'r': {'Type': 'AWS::IAM::Role', 'Properties': {'RoleName': 'admin', 'Path': '/x'}}}},
+              {'Resources': {'r': {'Type': 'AWS::IAM::Role', 'Properties': {'RoleName': 'dev', 'Path': '/'}}, 'b': {'Type': 'AWS::S3::Bucket', 'Properties': {'Size': 6}}}}]
+    texts = ['rule r {\n  ' + '\n  '.join(p) + '\n}\n' for k in (2, 3, 4) for sub in itertools.combinations(lines_b, k) for p in itertools.permutations(sub)]
+    groups_b = {}
+    for k in (2, 3, 4):
+        for sub in itertools.combinations(range(len(lines_b)), k):
+            groups_b[sub] = ['rule r {\n  ' + '\n  '.join(lines_b[i] for i in p) + '\n}\n' for p in itertools.permutations(sub)]
+    for sub, tx in groups_b.items():
+        scen.append(('blocks on the same type / query with a same-named variable each (lines %s)' % (list(sub),), tx if ctx.tier == 'thorough' else tx[:8], docs_b))
+    pairs, meta = [], []
+    for si, (lab, tx, docs) in enumerate(scen):
+        for ti, text in enumerate(tx):
+            for di, d in enumerate(docs):
+                pairs.append((text, json.dumps(d))); meta.append((si, ti, di))
+    outs, raw = e2e.pair_outcomes(pairs, ctx.wd, 'c04dup', loader='cli')
+    seen, n = {}, 0
+    for (si, ti, di), o, r, (text, data) in zip(meta, outs, raw, pairs):
+        o1, s1 = statuses(o, r)
+        if o1 not in ('PASS', 'FAIL', 'SKIP'):
+            raise ToolingError('near-duplicate scenario does not evaluate: %s %s' % (scen[si][0], o1))
+        st = (o1, tuple(sorted((k, tuple(sorted(v))) for k, v in (s1 or {}).items())))
+        key = (si, di)
+        if key in seen:
+            n += 1
+            st0, text0 = seen[key]
+            if st0 != st:
+                ctx.failing('%s: %s in one order, %s in another' % (scen[si][0], st0, st),
+                            {'class': 'order', 'transformation': 'items that differ only inside a filter / a block variable, permuted (concrete syntax)', 'rules': text0, 'variant': text, 'data': data}, found=True)
+        else:
+            seen[key] = (st, text)
+    ctx.coverage['near_duplicate_comparisons'] = n
+    ctx.coverage['evaluations'] += len(pairs)
+    return n
+
+
 def run(ctx):
     ctx.build()
     pr = ctx.proofs('C04')
     thorough = ctx.tier == 'thorough'
     n, originals = run_diff(ctx, 400 if thorough else 60, 40 if thorough else 16)
     n += run_text_orders(ctx)
+    n += run_near_duplicates(ctx)
     # the model evaluator agrees with the implementation on the originals (status, error kind, record tree)
     out, errs = corr.run([{'rules': r, 'data': d} for r, d in originals[:300]], ctx.wd, 'c04corr', loader='cli')
     if errs:
